@@ -314,6 +314,7 @@ func (o *Obligation) SMT() string {
 		sb.WriteString(d)
 		sb.WriteByte('\n')
 	}
+	sb.WriteString(vc.W.ioEOFDecl())
 	sb.WriteString(vc.W.subRefDecls())
 	sb.WriteString(vc.W.appDeclLines())
 	// string literals used directly by the VC
@@ -426,9 +427,32 @@ func (w *World) splitGoal(g Term, depth int) []Term {
 		}
 		return out
 	}
+	if strings.HasPrefix(s, "(ite ") {
+		parts := splitTopLevel(s[1 : len(s)-1])
+		if len(parts) == 4 {
+			a := w.splitGoal(Term{"(=> " + parts[1] + " " + parts[2] + ")", SBool}, depth+1)
+			b := w.splitGoal(Term{"(=> (not " + parts[1] + ") " + parts[3] + ")", SBool}, depth+1)
+			return append(a, b...)
+		}
+	}
 	if strings.HasPrefix(s, "(=> ") {
 		parts := splitTopLevel(s[1 : len(s)-1])
 		if len(parts) == 3 {
+			// (=> a (=> b c)) ≡ (=> (and a b) c)
+			if strings.HasPrefix(parts[2], "(=> ") {
+				inner := splitTopLevel(parts[2][1 : len(parts[2])-1])
+				if len(inner) == 3 {
+					return w.splitGoal(Term{"(=> (and " + parts[1] + " " + inner[1] + ") " + inner[2] + ")", SBool}, depth+1)
+				}
+			}
+			if strings.HasPrefix(parts[2], "(ite ") {
+				inner := splitTopLevel(parts[2][1 : len(parts[2])-1])
+				if len(inner) == 4 {
+					a := w.splitGoal(Term{"(=> (and " + parts[1] + " " + inner[1] + ") " + inner[2] + ")", SBool}, depth+1)
+					b := w.splitGoal(Term{"(=> (and " + parts[1] + " (not " + inner[1] + ")) " + inner[3] + ")", SBool}, depth+1)
+					return append(a, b...)
+				}
+			}
 			cons := w.splitGoal(Term{parts[2], SBool}, depth+1)
 			if len(cons) > 1 {
 				var out []Term
